@@ -87,6 +87,10 @@ def classify(fam, opid, kindname, st, exc, found, int_targets):
             continue        # same observation, reported through the values / dtype aspect
         if a == "nontarget-bytes" and "nontarget-values" in al:
             continue
+        if a == "target-rounding-cast":
+            # the copying call computes in another dtype and is cast to the target's: <= 4 ulp is double rounding
+            stats["rounding-of-a-cast"] = stats.get("rounding-of-a-cast", 0) + 1
+            continue
         if st != "ok" and retyped and a.startswith("after-raise-"):
             # an integer out=/target was converted to float in place and then the call raised
             err = "unit-error" if isinstance(exc, UE.UnytError) else "numpy-error"
@@ -97,14 +101,14 @@ def classify(fam, opid, kindname, st, exc, found, int_targets):
         elif fam.startswith("ufunc") and kindname.startswith("int") and a.startswith("target-") and (
                 "view-of-a" in form or "part-of-a" in form):
             key = "C18[%s:integer-out-shares-memory-with-input:%s]" % (fam, kindname.replace("-narrow", ""))
-        elif a in ("target-rounding", "target-values") and narrow and fam.startswith(("convert", "augmented", "ufunc")):
-            # 2/4-byte data: the in-place route computes in float16/float32 (or retypes an integer target
-            # to the narrow float first), the copying route in float64 -- one family per route and dtype class
-            key = "C18[%s:%s:target-differs]" % (fam, kindname)
         elif a == "target-rounding" and fam.startswith(("ufunc", "augmented")) and (
                 name in INEXACT_UFUNCS or (kindname.startswith("cpx") and name in INEXACT_COMPLEX)):
             stats["ulp-noise-of-inexact-ufuncs"] = stats.get("ulp-noise-of-inexact-ufuncs", 0) + 1
             continue        # <= 4 ulp between two NumPy loops of a function that is not correctly rounded
+        elif a in ("target-rounding", "target-values") and narrow and fam.startswith(("convert", "augmented", "ufunc")):
+            # 2/4-byte data: the in-place route computes in float16/float32 (or retypes an integer target
+            # to the narrow float first), the copying route in float64 -- one family per route and dtype class
+            key = "C18[%s:%s:target-differs]" % (fam, kindname)
         elif a == "target-rounding":
             key = "C18[%s:%s:target-rounding]" % (fam, kindname)
         elif fam.startswith(("ufunc", "augmented")) and kindname.startswith("int") and a.startswith("target-"):
